@@ -81,6 +81,57 @@ func C15(c *core.Ctx) error {
 			c.Report(key, v.What, map[string]any{"initial": res.Initial, "sequence": v.Seq, "op": v.Op, "what": v.What})
 		}
 	})
+	// ---- conformance of the in-process route with the CLI route: the same scope-operation sequences, compiled
+	// into a probe template and rendered by the real binary, must print the same answers
+	cliDepth := 3
+	if !core.Quick(c.Tier) {
+		cliDepth = 4
+	}
+	cliChecked := 0
+	if err := c.BuildMockery(); err == nil {
+		tm := core.Run(c.Scratch, core.UserEnv(), 5*time.Minute, "", bin, "cli-template", strconv.Itoa(cliDepth))
+		an := core.Run(c.Scratch, core.UserEnv(), 5*time.Minute, "", bin, "cli-answers", strconv.Itoa(cliDepth))
+		if tm.Exit == 0 && an.Exit == 0 {
+			tdir := filepath.Join(c.Scratch, "c15t")
+			core.WriteTree(tdir, map[string]string{"probe.templ": tm.Stdout})
+			cfg := core.M{"template": "file://" + filepath.Join(tdir, "probe.templ"), "formatter": "noop", "require-template-schema-exists": false, "log-level": "error",
+				"dir": "{{.InterfaceDir}}", "filename": "mocks_gen_test.go", "packages": core.M{core.ModPath + "/p": core.M{"interfaces": core.M{"I": core.M{}}}}}
+			m, err := c.NewModule("c15-cli", map[string]string{"p/p.go": "package p\n\ntype I interface{ M() }\n", ".mockery.yml": core.YAML(cfg)})
+			if err == nil {
+				r := c.RunMockery(m.Dir, nil)
+				out, _ := m.Read("p/mocks_gen_test.go")
+				m.Remove()
+				if r.Exit != 0 {
+					c.Report("cli:render", "the CLI could not render the allocator probe template: "+firstN(r.Stderr, 400), nil)
+				} else {
+					want := map[string]string{}
+					for _, l := range strings.Split(an.Stdout, "\n") {
+						if f := strings.SplitN(l, "|", 3); len(f) == 3 {
+							want[f[1]] = f[2]
+						}
+					}
+					for _, l := range strings.Split(out, "\n") {
+						f := strings.SplitN(l, "|", 3)
+						if len(f) != 3 || !strings.HasPrefix(l, "// SEQ|") {
+							continue
+						}
+						cliChecked++
+						// AddName prints nothing in a template and "" in the driver
+						if want[f[1]] != f[2] {
+							c.Report("cli:answers:"+f[1], fmt.Sprintf("sequence #%s: a template rendered by the CLI gets answers %q, the in-process driver got %q", f[1], f[2], want[f[1]]), map[string]any{"sequence": f[1]})
+						}
+					}
+					if cliChecked != len(want) {
+						c.Report("cli:count", fmt.Sprintf("%d of %d sequences came back from the CLI", cliChecked, len(want)), nil)
+					}
+				}
+			}
+		} else {
+			c.Harness("c15 cli route: %s %s", firstN(tm.Stderr, 200), firstN(an.Stderr, 200))
+		}
+	}
+	c.Ev.Set("cli_sequences_compared", cliChecked)
+	total.Transitions += cliChecked
 	c.Ev.Set("states", total.States)
 	c.Ev.Set("transitions", total.Transitions)
 	c.Ev.Set("traces_validated_against_impl", total.Transitions)
